@@ -230,7 +230,7 @@ def clause5(P, res):
     res.rule(rid, "claimed-run hand-off (mpsc bounded batch sends): `claim_run` returns how many of the claimed tickets are inside the window (`valid`); at every "
                   "`resolve_run(t, valid, m, iter)` the iterator removes exactly that many items from the caller's source — it is `.take(valid)` or `drain(..valid)` "
                   "with the very same `valid`. A larger bound drops the overshoot items (never delivered, not left unsent); a smaller one publishes fewer than counted")
-    n = 0
+    n = m = 0
     for b in P.bodies.values():
         if not b.id.startswith("fibre::mpsc::bounded_v3::") and not b.id.startswith("fibre::<mpsc::bounded_v3::"):
             continue
@@ -255,8 +255,30 @@ def clause5(P, res):
             else:
                 res.violated(rid, key, f"resolve_run at {e.loc} is told {valid or '?'} items are valid but its iterator is bounded by `{bound}`: items beyond `valid` are pulled "
                              "out of the caller's batch and dropped without being sent or reported unsent", where=e.loc)
+        # the caller's progress counter advances by the same `valid` (tickets actually filled), never by `m` (tickets claimed, including SKIP tombstones)
+        rr = [e for e in b.calls() if e.method == "resolve_run" and len(e.args) >= 5]
+        if rr:
+            valid_paths = {b.path_of_operand(e.args[2]) for e in rr}
+            claimed_paths = {b.path_of_operand(e.args[3]) for e in rr}
+            k = 0
+            for ev in b.events:
+                if ev.kind == "assign" and ev.data["r"]["k"] == "bin" and ev.data["r"]["op"] in ("AddWithOverflow", "Add", "AddUnchecked"):
+                    acc = b.path_of_operand(ev.data["r"]["a"])
+                    if not re.search(r"(^|\.)sent$", acc):
+                        continue
+                    inc = b.path_of_operand(ev.data["r"]["b"])
+                    if inc in valid_paths:
+                        m += 1
+                        res.holds(rid, f"{b.id}:sent+=#{k}", "progress counter advances by `valid`", where=ev.loc)
+                    elif inc in claimed_paths:
+                        m += 1
+                        res.violated(rid, f"{b.id}:sent+=#{k}", f"the sent counter advances by the number of tickets claimed (`m`) at {ev.loc}, which includes SKIP tombstones that carry "
+                                     "no value: the call reports items as sent that are still in (and then dropped with) the caller's iterator", where=ev.loc)
+                    k += 1
     if n < 5:
         res.violated(rid, "resolve_run-sites", f"expected >= 5 resolve_run call sites, found {n}")
+    if m < 4:
+        res.violated(rid, "sent-counter-sites", f"expected >= 4 `sent += valid` sites next to resolve_run, found {m}")
 
 
 def run(P, ctx):
